@@ -65,7 +65,22 @@ fn gen_model(ch: &mut Ch, params: &[wasmparser::ValType], results: &[wasmparser:
 }
 
 /// Emit the body for `model` through the builder.
-fn build_body(body: &mut InstrSeqBuilder, args: &[LocalId], model: &[RModel], param_types: &[ValType], read_mask: u64, scratch: Option<LocalId>, drop_data: Option<DataId>) {
+fn build_body(body: &mut InstrSeqBuilder, args: &[LocalId], model: &[RModel], param_types: &[ValType], read_mask: u64, scratch: Option<LocalId>, drop_data: Option<DataId>, typed: Option<(ir::InstrSeqType, usize)>) {
+    // a block whose type has parameters and one result (made with
+    // `InstrSeqType::new` before the replacement): p constants go in, their
+    // sum comes out and is dropped
+    if let Some((ty, p)) = typed {
+        for k in 0..p {
+            body.i32_const(k as i32 + 2);
+        }
+        body.block(ty, |b| {
+            for _ in 1..p {
+                b.binop(ir::BinaryOp::I32Add);
+            }
+            b.i32_const(1).binop(ir::BinaryOp::I32Add);
+        });
+        body.drop();
+    }
     // dropping an active data segment is a no-op at run time (it was dropped
     // at instantiation) but makes the body one that needs a data-count section
     if let Some(d) = drop_data {
@@ -240,7 +255,13 @@ pub fn check(ctx: &Ctx, input: &Input) -> CaseResult {
         let param_types: Vec<ValType> = ft.params.iter().map(|t| vt(*t)).collect();
         let shared_id = std::sync::Arc::new(std::sync::Mutex::new(None));
         let sid = shared_id.clone();
-        let mut cfg = wal::Cfg::plain().to_config();
+        // a quarter of the cases ask for DWARF generation (the module has no
+        // debug sections; the replacement has no original code range)
+        let want_dwarf = read_mask != u64::MAX && read_mask & 64 != 0;
+        if want_dwarf {
+            out.label("config:dwarf-generation-on");
+        }
+        let mut cfg = wal::Cfg { dwarf: want_dwarf, ..wal::Cfg::plain() }.to_config();
         cfg.on_parse(move |_m, ids| {
             *sid.lock().unwrap() = Some(ids.get_func(pos)?);
             Ok(())
@@ -279,8 +300,15 @@ pub fn check(ctx: &Ctx, input: &Input) -> CaseResult {
                 out.label("import-re-homed-before-replacement");
             }
         }
+        let typed = if read_mask & 256 != 0 {
+            let p = 1 + (read_mask >> 9 & 1) as usize;
+            out.label("replacement-has-typed-block");
+            Some((ir::InstrSeqType::new(&mut m.types, &vec![ValType::I32; p], &[ValType::I32]), p))
+        } else {
+            None
+        };
         let r = guard("replace_imported_func", || {
-            m.replace_imported_func(fid, |(body, args)| build_body(body, args, &model2, &pt, read_mask, scratch, drop_data))
+            m.replace_imported_func(fid, |(body, args)| build_body(body, args, &model2, &pt, read_mask, scratch, drop_data, typed))
         })?;
         let new_id = match r {
             Ok(id) => id,
@@ -388,7 +416,11 @@ pub fn check(ctx: &Ctx, input: &Input) -> CaseResult {
         let param_types: Vec<ValType> = ft.params.iter().map(|t| vt(*t)).collect();
         let shared_id = std::sync::Arc::new(std::sync::Mutex::new(None));
         let sid = shared_id.clone();
-        let mut cfg = wal::Cfg::plain().to_config();
+        let want_dwarf = read_mask != u64::MAX && read_mask & 64 != 0;
+        if want_dwarf {
+            out.label("config:dwarf-generation-on");
+        }
+        let mut cfg = wal::Cfg { dwarf: want_dwarf, ..wal::Cfg::plain() }.to_config();
         cfg.on_parse(move |_m, ids| {
             *sid.lock().unwrap() = Some(ids.get_func(target)?);
             Ok(())
@@ -411,8 +443,15 @@ pub fn check(ctx: &Ctx, input: &Input) -> CaseResult {
         let model2 = model.clone();
         let pt = param_types.clone();
         let export_is_sole_declaration = crate::edits::sole_declaring_exports(&m).contains(&fid);
+        let typed = if read_mask & 256 != 0 {
+            let p = 1 + (read_mask >> 9 & 1) as usize;
+            out.label("replacement-has-typed-block");
+            Some((ir::InstrSeqType::new(&mut m.types, &vec![ValType::I32; p], &[ValType::I32]), p))
+        } else {
+            None
+        };
         let r = guard("replace_exported_func", || {
-            m.replace_exported_func(fid, |(body, args)| build_body(body, args, &model2, &pt, read_mask, scratch, drop_data))
+            m.replace_exported_func(fid, |(body, args)| build_body(body, args, &model2, &pt, read_mask, scratch, drop_data, typed))
         })?;
         if r.is_err() && target < da.imp_funcs.len() as u32 {
             out.label("re-exported-import:replacement-refused");
